@@ -150,6 +150,16 @@ var Flows = []Flow{
 		if t.Choose(8) == 0 {
 			max = new(big.Int).Set(bigBoundaries[t.Choose(len(bigBoundaries))])
 		}
+		if t.Choose(5) == 0 {
+			// a token whose whole supply is a boundary value: amounts beyond 63 / 64 / 255 bits travel through
+			// transfers, calls, refunds and burns
+			total = new(big.Int).Set(bigBoundaries[t.Choose(len(bigBoundaries))])
+			max = new(big.Int).Set(total)
+			if mintable && t.Bool() {
+				max = new(big.Int).Set(bigBoundaries[t.Choose(len(bigBoundaries))])
+			}
+			gn.W.R.Probe("issue-boundary-supply-attempted")
+		}
 		return gn.do(n, "token.IssueToken", gn.user(), types.TokenContract, types.ZnnTokenStandard, new(big.Int).Set(constants.TokenIssueAmount),
 			definition.ABIToken.PackMethodPanic(definition.IssueMethodName, fmt.Sprintf("Tok%d", gn.seq), fmt.Sprintf("T%d", gn.seq%1000), "sim.test", total, max, uint8(t.Choose(19)), mintable, t.Bool(), t.Bool()))
 	}},
@@ -330,6 +340,57 @@ func init() {
 			gn.W.R.Probe("token-burst")
 			return last
 		}},
+		// a holder of at least 2^63 units of a user token moves boundary amounts through calls that fail at
+		// receive time (refund path), succeed (burn), or simply change hands
+		Flow{"huge-amount-call", func(gn *Gen, n *simnode.Node) *nom.AccountBlock {
+			t := gn.W.R.T
+			type holding struct {
+				who types.Address
+				z   types.ZenonTokenStandard
+				bal *big.Int
+			}
+			var hs []holding
+			for _, z := range gn.Tokens {
+				if z == types.ZnnTokenStandard || z == types.QsrTokenStandard {
+					continue
+				}
+				for _, u := range gn.W.Users {
+					if bal := gn.balance(n, u.Address, z); bal.BitLen() >= 64 {
+						hs = append(hs, holding{u.Address, z, bal})
+					}
+				}
+			}
+			if len(hs) == 0 {
+				return nil
+			}
+			h := hs[t.Choose(len(hs))]
+			amt := new(big.Int).Set(h.bal)
+			if t.Choose(3) != 0 {
+				var fit []*big.Int
+				for _, b := range bigBoundaries {
+					if b.BitLen() >= 64 && b.Cmp(h.bal) <= 0 {
+						fit = append(fit, b)
+					}
+				}
+				if len(fit) > 0 {
+					amt = new(big.Int).Set(fit[t.Choose(len(fit))])
+				}
+			}
+			gn.W.R.Probe("huge-amount-call")
+			switch t.Choose(5) {
+			case 0: // expired on arrival: fails at receive time, must be refunded
+				lock := crypto.Hash([]byte("x"))
+				return gn.do(n, "htlc.Create", h.who, types.HtlcContract, h.z, amt, definition.ABIHtlc.PackMethodPanic(definition.CreateHtlcMethodName, gn.user(), int64(simrtGenesis+5), uint8(0), uint8(32), lock))
+			case 1: // burn: allowed for the owner or a burnable token, refunded otherwise
+				return gn.do(n, "token.Burn", h.who, types.TokenContract, h.z, amt, definition.ABIToken.PackMethodPanic(definition.BurnMethodName))
+			case 2:
+				return gn.do(n, "liquidity.LiquidityStake", h.who, types.LiquidityContract, h.z, amt, definition.ABILiquidity.PackMethodPanic(definition.LiquidityStakeMethodName, constants.StakeTimeUnitSec))
+			case 3:
+				return gn.do(n, "liquidity.Donate", h.who, types.LiquidityContract, h.z, amt, definition.ABICommon.PackMethodPanic(definition.DonateMethodName))
+			default: // changes hands: other users become holders (and burn as non-owners)
+				return gn.do(n, "transfer", h.who, gn.user(), h.z, amt, nil)
+			}
+		}},
 		// a rich user without a sentinel deposits and registers in one go; one with a sentinel revokes it
 		Flow{"sentinel-lifecycle", func(gn *Gen, n *simnode.Node) *nom.AccountBlock {
 			x := gn.richUser()
@@ -372,6 +433,8 @@ func init() {
 		}},
 	)
 }
+
+const simrtGenesis = 1000000000
 
 func minInt64(a, b int64) int64 {
 	if a < b {
